@@ -110,6 +110,15 @@ def guards(ctx, rule):
 def iterator(ctx, rule):
     b = ctx.body(ITER)
     calls = [q.shape(b.expr_of_call(t)) for bi, t in b.calls()]
+    # combinator form of the same loop: the first id whose lookup is not Ok(None) is yielded
+    # (`Ok(Some(m))` as `Some(Ok(m))`, `Err(e)` as `Some(Err(e))`: Result::transpose), ids in range order
+    comb = "Iterator::find_map(Iterator::by_ref(arg1.range),\u03bb(Result::transpose(RamBundle::get_module(^arg1.ram_bundle,p1))))"
+    if [sh for sh, _, _ in q.def_shapes(b, 0, {})] == [comb]:
+        ctx.ok(rule, ITER, "ids-in-order", "ids are visited in increasing order through the stored range (find_map over by_ref)")
+        ctx.ok(rule, ITER, "yields", "present modules and errors are yielded, the end of the range ends the iteration (find_map + transpose)")
+        ctx.ok(rule, ITER, "skip-empty", "empty slots (Ok(None)) are skipped (transpose maps them to None)")
+        _iter_range(ctx, rule)
+        return
     ctx.check("Iterator::by_ref(arg1.range)" in calls and "RamBundle::get_module(arg1.ram_bundle,try(Iterator::next(var:&mut Range<usize>)))" in calls, rule, ITER, "ids-in-order", "ids are visited in increasing order through the stored range", detail=str(calls))
     GM = "RamBundle::get_module(arg1.ram_bundle,try(Iterator::next(var:&mut Range<usize>)))"
     rets = [(bi, q.shape(b.expr_of_rvalue(s["rv"]))) for bi, si, s, it in b.locations() if not it and s["k"] == "assign" and s["place"]["l"] == 0 and not s["place"]["p"]]
@@ -122,6 +131,10 @@ def iterator(ctx, rule):
         if t["k"] == "switch" and q.shape(b.expr_of_operand(t["discr"])) == "discr(try(%s))" % GM:
             none_t = [tb for v, tb in t["arms"] if v == 0]
             ctx.check(bool(none_t) and bool(head) and b.reaches(none_t[0], head[0]) and not any(bi in b.reachable_blocks(none_t[0], avoid=head) for bi, sh in rets), rule, ITER, "skip-empty", "empty slots (Ok(None)) are skipped")
+    _iter_range(ctx, rule)
+
+
+def _iter_range(ctx, rule):
     im = ctx.body("ram_bundle::RamBundle::<'a>::iter_modules")
     aggs = [q.shape(im.expr_of_rvalue(s["rv"])) for bi, si, s, it in im.locations() if not it and s["k"] == "assign" and s["rv"]["k"] == "agg" and s["rv"].get("adt", "").endswith("RamBundleModuleIter")]
     ctx.check(aggs == ["RamBundleModuleIter{range:Range{start:0,end:RamBundle::module_count(arg1)},ram_bundle:arg1}"], rule, im.path, "range", "the iterator covers ids 0..module_count", detail=str(aggs))
